@@ -114,16 +114,17 @@ pub fn expected(c: &Case) -> Outcome {
 
 fn spawn_child(p: Proc) -> std::io::Result<std::process::Child> {
     let script = match p {
-        Proc::ExitsOkOnSigint => "trap 'exit 0' INT; sleep 30 & wait $!",
-        Proc::ExitsErrOnSigint => "trap 'exit 1' INT; sleep 30 & wait $!",
-        Proc::IgnoresSigint => "trap '' INT; sleep 30 & wait $!",
-        Proc::EndsOk | Proc::EndsErr => "trap 'exit 7' INT; sleep 30 & wait $!",
+        // the shell reports on stdout when its trap is in place (no timing assumption)
+        Proc::ExitsOkOnSigint => "trap 'exit 0' INT; echo ready; sleep 300 & wait $!",
+        Proc::ExitsErrOnSigint => "trap 'exit 1' INT; echo ready; sleep 300 & wait $!",
+        Proc::IgnoresSigint => "trap '' INT; echo ready; sleep 300 & wait $!",
+        Proc::EndsOk | Proc::EndsErr => "trap 'exit 7' INT; echo ready; sleep 300 & wait $!",
     };
     let mut cmd = Command::new("/bin/sh");
     cmd.arg("-c")
         .arg(script)
         .stdin(Stdio::null())
-        .stdout(Stdio::null())
+        .stdout(Stdio::piped())
         .stderr(Stdio::null())
         .process_group(0);
     cmd.spawn()
@@ -132,10 +133,20 @@ fn spawn_child(p: Proc) -> std::io::Result<std::process::Child> {
 pub fn run_case(c: &Case) -> Result<Outcome, String> {
     let mut child = spawn_child(c.proc_).map_err(|e| format!("cannot spawn /bin/sh: {e}"))?;
     let pid = child.id();
-    // let the shell install its trap
-    std::thread::sleep(Duration::from_millis(120));
+    // wait until the shell has installed its trap
+    {
+        use std::io::Read;
+        let mut out = child.stdout.take().ok_or("no stdout pipe")?;
+        let mut buf = [0u8; 6];
+        out.read_exact(&mut buf).map_err(|e| format!("child did not report ready: {e}"))?;
+    }
+    // Paused clock: the grace period of the real code is virtual time. tokio does not advance a
+    // paused clock while a spawn_blocking task is in flight, so the period cannot expire while
+    // the (real) child is still on its way out; it expires at once when nothing will ever happen
+    // (a process that ignores SIGINT). No verdict depends on how fast this machine is.
     let rt = tokio::runtime::Builder::new_current_thread()
         .enable_all()
+        .start_paused(true)
         .build()
         .map_err(|e| e.to_string())?;
     let case = *c;
@@ -190,16 +201,16 @@ pub fn run_case(c: &Case) -> Result<Outcome, String> {
                 }
                 Proc::IgnoresSigint => futures::future::pending::<()>().await,
                 Proc::ExitsOkOnSigint | Proc::ExitsErrOnSigint => {
-                    loop {
-                        tokio::time::sleep(Duration::from_millis(10)).await;
-                        // signal 0: is the process still there?
-                        let alive = unsafe { kill(pgid, 0) } == 0 && !is_zombie(pgid);
-                        if !alive {
-                            if let Some(tx) = proc_tx.take() {
-                                let _ = tx.send(self_result(case.proc_));
-                            }
-                            break;
+                    // like the real child-wait: blocks (in real time) until the process is gone
+                    let _ = tokio::task::spawn_blocking(move || {
+                        let t0 = Instant::now();
+                        while unsafe { kill(pgid, 0) } == 0 && !is_zombie(pgid) && t0.elapsed() < Duration::from_secs(60) {
+                            std::thread::sleep(Duration::from_millis(2));
                         }
+                    })
+                    .await;
+                    if let Some(tx) = proc_tx.take() {
+                        let _ = tx.send(self_result(case.proc_));
                     }
                     futures::future::pending::<()>().await;
                 }
@@ -229,8 +240,8 @@ pub fn run_case(c: &Case) -> Result<Outcome, String> {
         }
         Err(_) => "error".to_string(),
     };
-    // how did the child end?
-    let deadline = Instant::now() + Duration::from_millis(1500);
+    // how did the child end? (generous real-time limit: the expected outcome does not depend on it)
+    let deadline = Instant::now() + Duration::from_secs(20);
     let mut child_state = "alive".to_string();
     loop {
         match child.try_wait() {
